@@ -29,13 +29,38 @@
 using namespace vp;
 using namespace mpt;
 
-enum { FCobs, FCobsR, FZpe, FZpeR, NFraming };
-static const char *kName[] = {"cobs", "cobs/r", "cobs/zpe", "cobs/zpe+r"};
+// NFraming counts the COBS dialects (selector arithmetic of the committed corpus depends on it); the command framing
+// (zero-terminated text, mpt_encode_string / mpt_decode_command) was appended later and has selector ranges of its own
+enum { FCobs, FCobsR, FZpe, FZpeR, NFraming, FCommand = NFraming };
+static const char *kName[] = {"cobs", "cobs/r", "cobs/zpe", "cobs/zpe+r", "command"};
 static const int kEncoding[] = {MPT_ENUM(EncodingCobs), MPT_ENUM(EncodingCobsInline), MPT_ENUM(EncodingCobs) | MPT_ENUM(EncodingCompress),
-                                MPT_ENUM(EncodingCobsInline) | MPT_ENUM(EncodingCompress)};
+                                MPT_ENUM(EncodingCobsInline) | MPT_ENUM(EncodingCompress), MPT_ENUM(EncodingCommand)};
 static const char *kZpeStall = "C02-zpe-recv-stall";
 
-static bool is_zpe(int fr) { return fr >= FZpe; }
+static bool is_zpe(int fr) { return fr == FZpe || fr == FZpeR; }
+
+// what the receiver hands over for a sent message: the command decoder puts a message header in front of the text
+static std::vector<uint8_t> expect_recv(int fr, const std::vector<uint8_t> &m) {
+  std::vector<uint8_t> w;
+  if (fr == FCommand) { w.push_back(0x04 /* MessageCommand */); w.push_back(' '); }
+  w.insert(w.end(), m.begin(), m.end());
+  return w;
+}
+// is the frame body (bytes before the delimiter) the encoding of the message?
+static bool frame_is(int fr, const uint8_t *f, size_t n, const std::vector<uint8_t> &want, std::string &how) {
+  if (fr == FCommand) {  // the text itself
+    if (n == want.size() && !memcmp(f, want.data(), n)) return true;
+    size_t d = 0;
+    while (d < n && d < want.size() && f[d] == want[d]) ++d;
+    how = "differs from the text at byte " + std::to_string(d);
+    return false;
+  }
+  std::vector<uint8_t> out;
+  ref::Verdict v = ref::decode((ref::Dialect)fr, f, n, out);
+  if (v == ref::WellFormed && out == want) return true;
+  how = v == ref::WellFormed ? "decodes to " + std::to_string(out.size()) + " bytes " + hex(out.data(), out.size(), 24) : std::string("is malformed");
+  return false;
+}
 
 // ---- COBS/ZPE in-place decoding needs slack: every zero-pair code (0xE0+k) decodes to one byte more than it
 // consumed. The only slack the queue layer can rely on inside a message is the surplus of the blocks decoded before
@@ -123,6 +148,9 @@ struct H {
   int sgrow_style;
   bool cut_inside = false, partial_wrap_or_grow = false;
   size_t n_missing_buffer = 0;
+  bool drained_mid = false;
+  bool retry_full = true;
+  size_t open_queued = 0;  // command framing: bytes of the open message that are still in the sender queue
 
   H(Ctx &ctx, int framing) : c(ctx), fr(framing) {
     pfd[0] = pfd[1] = -1;
@@ -201,6 +229,14 @@ struct H {
       else if (sq->_state.done >= sq->max - sq->off) c.label("push:upper-part");
       else if (sq->max - sq->off - sq->_state.done >= sq->_state.scratch) c.label("push:lower-part");
       else c.label("push:out-of-band");
+      size_t low_room = sq->off && sq->_state.done < sq->max - sq->off ? sq->max - sq->off - sq->_state.done : 0;
+      if (fr == FCommand) {
+        if (wrapped(sd())) c.label("command:push-on-wrapped");
+        if (!sq->off) c.label("command:push:aligned");
+        else if (sq->_state.done >= sq->max - sq->off) c.label("command:push:upper-part");
+        else if (n - total > low_room) c.label(n ? "command:push:lower-part-overflowing" : "command:push:lower-part");  // first call fills the lower part, second call needed
+        else c.label("command:push:lower-part");
+      }
       ssize_t r = mpt_queue_push(sq, n - total, n ? p + total : 0);
       c.logf("  mpt_queue_push(%zu%s) = %zd", n - total, n ? "" : ", terminate", r);
       logq("   ");
@@ -209,6 +245,7 @@ struct H {
         if (!n) return;
         VP_CHECK(c, (size_t)r <= n - total, "push-accounting", "%s: mpt_queue_push consumed %zd of %zu bytes", kName[fr], r, n - total);
         cur.insert(cur.end(), p + total, p + total + r);
+        open_queued += r;
         total += r;
         if (total == n) return;
         c.label("sender:partial-push");
@@ -221,7 +258,7 @@ struct H {
   }
   void start_message() {
     size_t maxlen = c.choose<size_t>({0, 3, 6, 24, 24, 120, 300, 300, 700});
-    todo = msggen::message(c, maxlen, false);
+    todo = msggen::message(c, maxlen, fr == FCommand);
     if (is_zpe(fr) && zpe_message_fix(todo, false) && c.exclude(kZpeStall)) zpe_message_fix(todo, true);
     todo_off = 0;
     cur.clear();
@@ -260,6 +297,7 @@ struct H {
     VP_CHECK(c, cur == todo, "harness", "model lost bytes");
     sent.push_back(cur);
     open = false;
+    open_queued = 0;
   }
   // what mpt_stream_flush does with a descriptor that accepts k bytes
   void flush(size_t k, const char *why) {
@@ -271,6 +309,15 @@ struct H {
     size_t n0 = k < low ? k : low;
     wire.insert(wire.end(), first, first + n0);
     if (k > n0) { wire.insert(wire.end(), (uint8_t *)sq->base, (uint8_t *)sq->base + (k - n0)); c.label("sender:flush-two-segments"); }
+    if (open && open_queued && fr == FCommand) {  // the string encoder counts text as finished at once: a drain can take part of the open message
+      size_t finished = sq->_state.done - open_queued;  // bytes of earlier, terminated messages still queued
+      if (k > finished) {
+        open_queued -= k - finished;
+        c.label("command:drain-mid-message");
+        drained_mid = true;
+        if (wrapped(sd())) c.label("command:drain-mid-message-wrapped");
+      }
+    }
     int r = mpt_queue_crop(sd(), 0, k);
     sq->_state.done -= k;
     c.logf("flush %zu of %zu finished bytes [%s] (crop = %d), wire now %zu bytes", k, sq->_state.done + k, why, r, wire.size());
@@ -297,13 +344,12 @@ struct H {
       const uint8_t *f = wire.data() + wire_frame_start;
       size_t n = wire_seen - wire_frame_start;
       VP_CHECK(c, wire_frames < sent.size(), "wire-mismatch", "%s: frame #%zu on the wire but only %zu messages were finished", kName[fr], wire_frames, sent.size());
-      std::vector<uint8_t> out;
-      ref::Verdict v = ref::decode((ref::Dialect)fr, f, n, out);
       const std::vector<uint8_t> &want = sent[wire_frames];
-      if (v != ref::WellFormed || out != want) {
+      std::string how;
+      if (!frame_is(fr, f, n, want, how)) {
         c.loghex("  frame", f, n + 1);
-        c.fail("wire-mismatch", "%s: frame #%zu on the wire (%zu bytes %s) %s, sent message has %zu bytes %s", kName[fr], wire_frames, n + 1, hex(f, n + 1, 24).c_str(),
-               v == ref::WellFormed ? (std::string("decodes to ") + std::to_string(out.size()) + " bytes " + hex(out.data(), out.size(), 24)).c_str() : "is malformed", want.size(),
+        c.loghex("  sent ", want.data(), want.size());
+        c.fail("wire-mismatch", "%s: frame #%zu on the wire (%zu bytes %s) %s, sent message has %zu bytes %s", kName[fr], wire_frames, n + 1, hex(f, n + 1, 24).c_str(), how.c_str(), want.size(),
                hex(want.data(), want.size(), 24).c_str());
       }
       ++wire_frames;
@@ -361,6 +407,11 @@ struct H {
       unsigned code = wire[i];
       if (!code) { if (i + 1 > delivered) after_delim.push_back(i + 1); ++i; continue; }
       if (i + 1 > delivered) after_code.push_back(i + 1);
+      if (fr == FCommand) {  // no code bytes: first byte of the text stands in, then on to the delimiter
+        ++i;
+        while (i < wire.size() && wire[i]) ++i;
+        continue;
+      }
       size_t nd = is_zpe(fr) ? (code <= 0xdf ? code - 1 : code - 0xe0) : code - 1;
       ++i;
       while (nd && i < wire.size() && wire[i]) { ++i; --nd; }
@@ -395,7 +446,7 @@ struct H {
     std::vector<uint8_t> got(st.data.msg + 1);
     size_t n = mpt_message_read(&m, st.data.msg, got.data());
     got.resize(st.data.msg);
-    const std::vector<uint8_t> &want = sent[nrecv];
+    const std::vector<uint8_t> want = expect_recv(fr, sent[nrecv]);
     c.logf("  received message #%zu: %zu bytes %s", nrecv, n, hex(got.data(), got.size(), 24).c_str());
     VP_CHECK(c, n == (size_t)st.data.msg, "message-get", "mpt_message_read gave %zu of %zd bytes", n, st.data.msg);
     if (got != want) {
@@ -414,7 +465,21 @@ struct H {
     c.logf("  mpt_queue_recv [%s] = %d", which, r);
     logq("   ");
     inv_receiver("recv");
-    if (r == MPT_ERROR(MissingBuffer)) { ++n_missing_buffer; c.label("receiver:missing-buffer"); return r; }
+    if (r == MPT_ERROR(MissingBuffer)) {
+      ++n_missing_buffer;
+      c.label("receiver:missing-buffer");
+      if (rq->len < rq->max || !retry_full) return r;
+      // streamRecv() of stream_dispatch.c: a full buffered queue is enlarged by 64 and the receive is tried once more
+      size_t left = mpt_queue_prepare(rd(), 64);
+      c.logf("  receiver full and MissingBuffer: mpt_queue_prepare(64) -> %zu free, capacity %zu", left, rq->max);
+      VP_CHECK(c, left >= 64, "prepare-refused", "mpt_queue_prepare(receiver, 64) returned %zu", left);
+      c.label("receiver:grow-on-missing-buffer");
+      inv_receiver("prepare");
+      retry_full = false;
+      r = checked_recv(which);
+      retry_full = true;
+      return r;
+    }
     if (r == MPT_ERROR(MissingData) && !len_before) return r;  // documented: nothing in the queue
     VP_CHECK(c, r >= 0, "recv-error", "%s: mpt_queue_recv returned %d on a well-formed stream (queue %zu bytes, %zu frames delivered, %zu received)", kName[fr], r, len_before, delivered_frames,
              nrecv);
@@ -482,8 +547,14 @@ struct H {
     inv_receiver("peek");
     if (r < 0) return;
     // what is previewed is (the start of) the next message
-    const std::vector<uint8_t> *want = nrecv < sent.size() ? &sent[nrecv] : open ? &todo : 0;
-    if (!want) { VP_CHECK(c, r == 0, "peek-invented", "peek reports %zd bytes of a message but nothing is on the way", r); return; }
+    std::vector<uint8_t> wantv;
+    const std::vector<uint8_t> *want = 0;
+    if (nrecv < sent.size()) { wantv = expect_recv(fr, sent[nrecv]); want = &wantv; }
+    else if (open) { wantv = expect_recv(fr, todo); want = &wantv; }
+    if (!want) {  // nothing on the way: no decoded bytes, except the header the command decoder writes before any text has arrived
+      wantv = expect_recv(fr, std::vector<uint8_t>());
+      want = &wantv;
+    }
     VP_CHECK(c, (size_t)r <= want->size(), "peek-invented", "%s: peek reports %zd decoded bytes, the next message has %zu", kName[fr], r, want->size());
     if (dst && r) {
       size_t n = (size_t)r < max ? (size_t)r : max;
@@ -661,7 +732,7 @@ static void run_streams(Ctx &c, int fr) {
     VP_CHECK(c, !col.bad, "message-get", "message handed to the dispatch callback could not be read completely");
     for (; checked < col.got.size(); checked++) {
       VP_CHECK(c, checked < frames_forwarded, "extra-message", "%s: stream delivered message #%zu, only %zu complete frames were forwarded", kName[fr], checked, frames_forwarded);
-      const std::vector<uint8_t> &g = col.got[checked], &w = sent[checked];
+      const std::vector<uint8_t> &g = col.got[checked], w = expect_recv(fr, sent[checked]);
       c.logf("  received message #%zu: %zu bytes %s", checked, g.size(), hex(g.data(), g.size(), 24).c_str());
       if (g != w) {
         size_t d = 0;
@@ -678,9 +749,8 @@ static void run_streams(Ctx &c, int fr) {
     for (; wire_seen < mid.size(); wire_seen++) {
       if (mid[wire_seen]) continue;
       VP_CHECK(c, wire_frames < sent.size(), "wire-mismatch", "%s: streams: frame #%zu on the wire but only %zu messages were finished", kName[fr], wire_frames, sent.size());
-      std::vector<uint8_t> out;
-      ref::Verdict v = ref::decode((ref::Dialect)fr, mid.data() + wire_frame_start, wire_seen - wire_frame_start, out);
-      if (v != ref::WellFormed || out != sent[wire_frames]) {
+      std::string how;
+      if (!frame_is(fr, mid.data() + wire_frame_start, wire_seen - wire_frame_start, sent[wire_frames], how)) {
         c.loghex("  frame", mid.data() + wire_frame_start, wire_seen + 1 - wire_frame_start);
         c.fail("wire-mismatch", "%s: streams: frame #%zu written by the sender stream does not decode to the %zu byte message that was pushed", kName[fr], wire_frames, sent[wire_frames].size());
       }
@@ -716,7 +786,7 @@ static void run_streams(Ctx &c, int fr) {
     }
   };
   auto start = [&]() {
-    todo = msggen::message(c, c.choose<size_t>({24, 120, 300, 700}), false);
+    todo = msggen::message(c, c.choose<size_t>({24, 120, 300, 700}), fr == FCommand);
     if (is_zpe(fr) && zpe_message_fix(todo, false) && c.exclude(kZpeStall)) zpe_message_fix(todo, true);
     todo_off = 0; open = true;
     c.logf("message #%zu, %zu bytes", sent.size(), todo.size());
@@ -801,6 +871,9 @@ static void run(Ctx &c) {
   uint8_t sel = c.u8();
   if (sel == 0xff) { run_enum(c); return; }
   int fr = sel % NFraming;
+  // appended selector ranges of the command framing (none of the committed inputs starts with one of these bytes)
+  if (sel >= 0xc0 && sel < 0xe0) fr = FCommand;
+  if (sel >= 0xf8) fr = FCommand;
   if (sel >= 0xe0) { run_streams(c, fr); return; }
   H h(c, fr);
   h.run();
@@ -808,7 +881,7 @@ static void run(Ctx &c) {
 
 static Target t = {
     "C02",
-    "random: framing (4 COBS dialects) x history over {push chunk, end message, flush k, deliver k, receive, peek, grow sender, grow receiver} on an encode_queue/decode_queue pair driven "
+    "random: framing (4 COBS dialects; 1 case in 7: zero-terminated command text, zero-free messages, receiver gets header 04 20 + text) x history over {push chunk, end message, flush k, deliver k, receive, peek, grow sender, grow receiver} on an encode_queue/decode_queue pair driven "
     "like mptio/stream drives them (flush = crop + done -= k; deliver = shift, prepare(64) when full, mpt_queue_load from a pipe; receive = recv, mpt_message_get/read, recv as stream_dispatch); "
     "run-structured messages; both queues start with a drawn capacity (0, 8..512) and wrap offset made by pushing and removing dummy bytes; cuts biased to after a code byte / after or before the "
     "delimiter / single bytes; 1 case in 8: two real mpt_stream objects over socketpairs with the harness re-cutting the byte stream. exhaustive: two messages of length <= 2 over a boundary "
